@@ -37,19 +37,24 @@ Definition is_dir (p : path) (f : fs) : bool :=
   | _ => match fs_lookup p f with Some EDir => true | _ => false end
   end.
 
-(* destination.parent.mkdir(parents=True, exist_ok=True) *)
-Fixpoint mkdir_p_from (pre rest : path) (f : fs) : option fs :=
+(* destination.parent.mkdir(parents=True, exist_ok=True): every non-empty initial segment of the path,
+   shortest first, is created unless it is already a directory *)
+Fixpoint inits_ne (pre rest : path) : list path :=
   match rest with
+  | [] => []
+  | s :: r => (pre ++ [s]) :: inits_ne (pre ++ [s]) r
+  end.
+Fixpoint mkdirs (qs : list path) (f : fs) : option fs :=
+  match qs with
   | [] => Some f
-  | s :: r =>
-      let q := pre ++ [s] in
+  | q :: r =>
       match fs_lookup q f with
-      | Some EDir => mkdir_p_from q r f
+      | Some EDir => mkdirs r f
       | Some (EFile _) => None                    (* FileExistsError / NotADirectoryError *)
-      | None => mkdir_p_from q r ((q, EDir) :: f)
+      | None => mkdirs r ((q, EDir) :: f)
       end
   end.
-Definition mkdir_p (p : path) (f : fs) : option fs := mkdir_p_from [] p f.
+Definition mkdir_p (p : path) (f : fs) : option fs := mkdirs (inits_ne [] p) f.
 
 Definition parent (p : path) : path := removelast p.
 
